@@ -525,6 +525,14 @@ def run(prog: Program, col: Collector, tier: str, refs: Optional[Refs] = None, c
     from .c07 import op_reduce_clause
     op_reduce_clause(prog, col)
 
+    # ---------------------------------------------------------------- R18.13 / R18.14 what the program runs equals what interpretation runs
+    # a program applies the raw op to arrays (or numpy scalars); eager interpretation goes through the tensor kernels and the mixed
+    # scalar/array registrations: both must be the op (shared with C02 R02.13 and C15 R15.6)
+    from . import algebra, c15
+    algebra.r_operand_returned_unchanged(prog, col, refs, cat, "R18.13")
+    col.rule("R18.14", "mixed scalar/array registrations of a commutative op are mirror images", floor=6)
+    c15._mirror(prog, col, refs, cat)
+
     # ---------------------------------------------------------------- R18.11
     col.rule("R18.11", "every value number that is allocated has exactly one slot emitted for it, on every path of the numbering loops", floor=5)
     _alloc_emit_pairing(prog, col, refs)
@@ -633,6 +641,38 @@ def _trace_record(prog: Program, col: Collector, refs: Refs):
                   f"the record `{norm(tup)}` does not depend on {' / '.join(('**' if p == kw else '*') + p for p in missing)} of the call: "
                   f"an op called with keyword parameters (ops.sum(x, axis=0), ops.clamp(x, min=a)) is traced as the default-parametrised op and the program computes something else",
                   f.loc(rec))
+        # the parameters an op INSTANCE carries (ops.SumOp(0), node.op of a Unary) are merged into the call's arguments by a loop over
+        # self.defaults; what the record is built from must be read after that merge
+        selfn = f.positional[0]
+        merges = [lp for lp in walk_no_nested(f.node) if isinstance(lp, ast.For) and any(
+            isinstance(x, ast.Attribute) and x.attr == "defaults" and isinstance(x.value, ast.Name) and x.value.id == selfn for x in ast.walk(lp.iter))]
+        if merges:
+            merge_end = max(getattr(x, "end_lineno", x.lineno) for x in merges)
+            defs_ = {}
+            for st2 in walk_no_nested(f.node):
+                if isinstance(st2, ast.Assign):
+                    for tg in st2.targets:
+                        for y in ast.walk(tg):
+                            if isinstance(y, ast.Name) and isinstance(y.ctx, ast.Store):
+                                defs_.setdefault(y.id, []).append(st2)
+            early = []
+            opexpr = tup.elts[1]
+            names = {y.id for y in ast.walk(opexpr) if isinstance(y, ast.Name)}
+            for nm in sorted(names):
+                for d in defs_.get(nm, []):
+                    if isinstance(opexpr, ast.Name) and nm == opexpr.id:
+                        # the op is a local: look through its definition
+                        for y in ast.walk(d.value):
+                            if isinstance(y, ast.Name):
+                                for d2 in defs_.get(y.id, []):
+                                    if d2.lineno < merges[0].lineno and any(isinstance(z, ast.Name) and z.id not in (selfn,) for z in ast.walk(d2.value)) \
+                                            and not (isinstance(d2.value, ast.Call) and norm(d2.value.func) == "type"):
+                                        if any(isinstance(z, ast.Attribute) and z.attr in ("args", "kwargs", "arguments") for z in ast.walk(d2.value)):
+                                            early.append((y.id, d2))
+            col.check(not early, f"{f.fq}::record built after the instance parameters are merged",
+                      "the recorded op is built from the arguments as they are after self.defaults were merged in",
+                      f"`{early[0][0]}` is taken from the bound arguments at line {early[0][1].lineno}, BEFORE the parameters carried by the op instance (self.defaults) are merged in: "
+                      "calling a parametrised instance such as ops.SumOp(0)(x) is traced as the default-parametrised op" if early else "", f.loc(rec))
 
 
 def _popped_values(prog: Program, col: Collector):
